@@ -12,7 +12,7 @@ import datetime
 from dst import sched, simfs, simnet, peers, refofx, simexec
 from dst.simnet import (F_NONE, F_REFUSED, F_RESET_BEFORE, F_RESET_AFTER, F_TIMEOUT, F_TIMEOUT_AFTER,
                         F_HTTP500, F_SHORT_LEN, F_CUT_CLOSE, F_GARBAGE)
-from .w_client import World, Ident, DATA_DIR, ABSENT_MAX, V1, V2, state_str, clean_exc
+from .w_client import World, Ident, DATA_DIR, ABSENT_MAX, V1, V2, state_str, clean_exc, timeline_exact
 
 UTC = datetime.timezone.utc
 
@@ -223,7 +223,7 @@ class C15(World):
             for s in f.seen:
                 if s.conn.op == op.id and s.ok and "PROFMSGSRQV1" in s.kinds:
                     seen.append((f, s))
-        exact = op.skipped_probes == 0
+        exact = timeline_exact(self, op.t_invoke, op.t_return)
         # J1 ----------------------------------------------------------------------------
         for f, s in seen:
             if f is not fi:
